@@ -27,7 +27,7 @@ MECHANISMS = ["jaxley.modules.base:Module.make_trainable", "jaxley.modules.base:
               "jaxley.modules.base:Module.data_set", "jaxley.modules.base:Module.set", "jaxley.utils.cell_utils:params_to_pstate"]
 MECHANISMS_REQUIRED = MECHANISMS
 REQUIRED = {"quick": {"scatter_ref": 150, "write_back": 60, "three_routes": 12},
-            "thorough": {"scatter_ref": 18174, "write_back": 858, "three_routes": 304}}
+            "thorough": {"scatter_ref": 18744, "write_back": 858, "three_routes": 304}}
 NODE_KEYS = ["radius", "length", "axial_resistivity", "capacitance", "v"]
 
 
